@@ -22,9 +22,9 @@ def names_of_text(text):
   return _names_cache[text]
 
 
-def stored_names(node):
-  """Names (re)bound or mutated in place by executing CFG node's own code
-  (not its nested blocks)."""
+def stored_names(node, mutations=True):
+  """Names (re)bound (and, with mutations=True, mutated in place) by executing
+  CFG node's own code (not its nested blocks)."""
   out = set()
   a = node.ast
   if a is None:
@@ -53,6 +53,10 @@ def stored_names(node):
   for n in _walk_noscope(a):
     if isinstance(n, ast.Name) and isinstance(n.ctx, (ast.Store, ast.Del)):
       out.add(n.id)
+    elif not mutations:
+      if isinstance(n, ast.NamedExpr):
+        out.add(n.target.id)
+      continue
     elif isinstance(n, ast.Subscript) and isinstance(n.ctx, (ast.Store, ast.Del)):
       b = _root_name(n.value)
       if b:
@@ -167,7 +171,7 @@ def std_facts(prog, f, g=None, extra_kill=None, attr_kill=None):
           return True
       return False
     if fact[0] == 'def':
-      return fact[1] in st
+      return fact[1] in stored_names(node, mutations=False)
     return False
 
   return g, g.must_facts(edge_facts, kill)
